@@ -102,19 +102,21 @@ template <> struct P<int> {
   static std::string show(int v) { return std::to_string(v); }
   static std::string showU(short v) { return std::to_string(v); }
 };
+// float/double payload tokens are k/2 resp. k/4 (exactly representable, not integers, so that an
+// integer parse or a narrowing through int is visible); printed back as the token
 template <> struct P<float> {
-  typedef int U;
-  static float make(int k) { return (float)k; }
-  static U makeU(int k) { return k; }
-  static std::string show(float v) { return (v == (float)(int)v) ? std::to_string((int)v) : "corrupt"; }
-  static std::string showU(int v) { return std::to_string(v); }
+  typedef double U;
+  static float make(int k) { return 0.5f * (float)k; }
+  static U makeU(int k) { return 0.5 * (double)k; }
+  static std::string showU(double v) { double t = v * 2.0; return (t == (double)(int)t && t >= 0 && t <= 3) ? std::to_string((int)t) : "corrupt"; }
+  static std::string show(float v) { return showU((double)v); }
 };
 template <> struct P<double> {
   typedef float U;
-  static double make(int k) { return (double)k; }
-  static U makeU(int k) { return (float)k; }
-  static std::string show(double v) { return (v == (double)(int)v) ? std::to_string((int)v) : "corrupt"; }
-  static std::string showU(float v) { return (v == (float)(int)v) ? std::to_string((int)v) : "corrupt"; }
+  static double make(int k) { return 0.25 * (double)k; }
+  static U makeU(int k) { return 0.25f * (float)k; }
+  static std::string show(double v) { double t = v * 4.0; return (t == (double)(int)t && t >= 0 && t <= 3) ? std::to_string((int)t) : "corrupt"; }
+  static std::string showU(float v) { return show((double)v); }
 };
 template <> struct P<std::string> {
   typedef const char *U;
@@ -171,7 +173,7 @@ template <> struct Env<int> {
 template <> struct Env<float> {
   static const bool ok = true;
   static Optional<float> get(const std::string &n) { return rkcommon::utility::getEnvVar<float>(n); }
-  static std::string str(int k) { return std::to_string(k); }
+  static std::string str(int k) { static const char *const v[4] = {"0", "0.5", "1", "1.5"}; return v[clampTok(k)]; }
 };
 template <> struct Env<std::string> {
   static const bool ok = true;
@@ -367,8 +369,8 @@ struct OptHarness
       return (unspec ? "?" : r) + tail();
     }
     if (op == "tostr") {
-      std::string s = isT(i) ? W(i)->toString() : Uw(i)->toString();
-      return (s == "rkcommon::utility::Optional<T>" ? "ok" : "bad-tostring") + tail();
+      std::string s = isT(i) ? W(i)->toString() : Uw(i)->toString();  // the text is not part of the property
+      return (s.size() < (1u << 20) ? "ok" : "huge") + tail();
     }
     if (op == "cmp" || op == "cmpu") {
       bool conv = op == "cmpu";
@@ -407,7 +409,8 @@ struct AnyHarness
     void destroy() { if (p) { p->~Any(); p = nullptr; } }
   } a[3];
 
-  void reset() { for (auto &s : a) s.destroy(); reg::live.clear(); reg::errs.clear(); }
+  int opCount = 0;
+  void reset() { for (auto &s : a) s.destroy(); reg::live.clear(); reg::errs.clear(); opCount = 0; }
   std::string tail()
   {
     std::string v;
@@ -426,12 +429,6 @@ struct AnyHarness
   {
     try { a[i].p->get<X>() = AP<X>::make(k); return "ok"; } catch (const std::runtime_error &) { return "throw"; }
   }
-  template <typename X> bool strOk(int i)
-  {
-    return a[i].p->toString() == "Any : (currently holds value of type) --> " + rkcommon::utility::demangle(typeid(X).name());
-  }
-  int opCount = 0;
-
 #define BY_TAG(t, EXPR)                                   \
   ((t) == "int" ? EXPR(int) : (t) == "float" ? EXPR(float) : (t) == "long" ? EXPR(long) : (t) == "string" ? EXPR(std::string) \
    : (t) == "noeq" ? EXPR(NoEq) : EXPR(Trk<0>))
@@ -474,10 +471,8 @@ struct AnyHarness
       if (!c.valid()) return "empty" + tail();
       std::string t = c.is<int>() ? "int" : c.is<float>() ? "float" : c.is<long>() ? "long" : c.is<std::string>() ? "string"
           : c.is<NoEq>() ? "noeq" : c.is<Trk<0>>() ? "trk" : "unknown";
-      if (t == "unknown") return "T:unknown" + tail();
-#define STROK(X) strOk<X>(i)
-      bool ok = BY_TAG(t, STROK);
-      return (ok ? "T:" + t : std::string("T:bad-text")) + tail();
+      (void)s;  // the text is not part of the property; the stored type is reported through is<T>()
+      return "T:" + t + tail();
     }
     if (op == "ais" || op == "aget") {
       if (w.size() < 3 || !tagOk(w[2])) return "bad-op";
